@@ -790,9 +790,9 @@ def excluded_points(ctx):
 def run(ctx):
     batch = {"req": [], "impl": [], "cases": [], "mask_serial": set(), "serial_sets": {}}
     fixture()
-    nses = ctx.pick(14, 150)
+    nses = ctx.pick(14, 100)
     for _ in range(nses):
-        run_session(ctx, ctx.rng.randrange(1 << 40), batch, ctx.rng.randint(1, ctx.pick(5, 8)))
+        run_session(ctx, ctx.rng.randrange(1 << 40), batch, ctx.rng.randint(1, ctx.pick(5, 6)))
     for _ in range(ctx.pick(15, 200)):
         api_stream(ctx, ctx.rng.randrange(1 << 40))
     # last: the raising scope exit leaves the (process-global) definition back-up chains unbalanced
